@@ -343,6 +343,9 @@ def _has_value_equality(prog, c: ClassInfo) -> bool:
     for k in prog.mro(c):
         if "__eq__" in k.methods:
             return True
+        # members of an Enum are singletons that unpickle to the very same member: identity *is* value equality for them
+        if any((dotted(b) or "").split(".")[-1] in ("Enum", "IntEnum", "StrEnum", "Flag", "IntFlag") for b in k.node.bases):
+            return True
         for d in k.node.decorator_list:
             if (dotted(d.func if isinstance(d, ast.Call) else d) or "").split(".")[-1] == "dataclass":
                 return True
